@@ -485,7 +485,7 @@ Definition spec_redirect_sound (fin : list osite) : bool :=
   forallb (fun r =>
     match redir r with
     | Some t =>
-      negb (beq t P80) && negb (has_plain_sibling decl (host r))
+      negb (beq t P80) && negb (beq t P443) && negb (has_plain_sibling decl (host r))
       && existsb (fun o => beq (host o) (host r) && https_site o && negb (nr (tls o)) && target_matches t o) decl
     | None => true
     end) fin.
